@@ -323,6 +323,12 @@ func runConc(e *env) {
 		}
 	}
 	sort.Ints(order)
+	nJoiners := 0
+	for _, p := range plans {
+		if len(p.steps) > 0 && p.steps[0].T == "s-join" {
+			nJoiners++
+		}
+	}
 	done, want := 0, 0
 	var problems []string
 	var announced [][2]uint64
@@ -372,6 +378,13 @@ func runConc(e *env) {
 					}
 					s.mc.Send(&spb.ModifyRequest{Params: comboParams(c)})
 					r, err := s.mc.RecvTimeout(10 * time.Minute)
+					if err != nil && modifyReason(err) == spb.ModifyRPCErrorDetails_PARAMS_DIFFER_FROM_OTHER_CLIENTS && nJoiners > 1 {
+						// another late joiner was connected but had not negotiated yet at that instant: a silent
+						// session holds the protocol's default parameters, so the refusal is what C09 demands
+						e.probe("late joiner refused while another one was connected but silent")
+						s.dead = true
+						return
+					}
 					if err != nil || r.GetSessionParamsResult().GetStatus() != spb.SessionParametersResult_OK {
 						problems = append(problems, fmt.Sprintf("session %d joining late: negotiation of the parameters every other session uses failed: %v %v", p.n, r, err))
 						return
